@@ -213,7 +213,8 @@ def recheck_theorems(pid, extra_files=()):
     ok = rc == 0 and not banned
     # Print Assumptions output: blocks "Closed under the global context" or "Axioms:\n name : type"
     closed = len(re.findall(r"Closed under the global context", out))
-    axioms = sorted(set(re.findall(r"^([A-Za-z_][A-Za-z0-9_.']*)\s*:", out.split("Axioms:", 1)[1], re.M))) if "Axioms:" in out else []
+    axioms = sorted(set(re.findall(r"^([A-Za-z_][A-Za-z0-9_.']*)\s*$|^([A-Za-z_][A-Za-z0-9_.']*)\s*:\s", out.split("Axioms:", 1)[1], re.M))) if "Axioms:" in out else []
+    axioms = sorted({a or b for a, b in axioms} - {"Axioms", "Closed"})
     return {"obligations": len(names), "discharged": len(names) if ok else 0, "theorems": names,
             "closed": closed, "axioms": axioms, "ok": ok, "output": out[-3000:], "banned": banned}
 
